@@ -171,9 +171,9 @@ private theorem StepPost.ofMode {tok : Token} {s : State} {m : Mode} (hi : HInv 
     StepPost tok .done { s with mode := m } :=
   ⟨hi.withMode m, hs.withMode m, trivial⟩
 
-private theorem StepPost.ofReprocess {tok : Token} {s : State} {m : Mode} (hi : HInv s) (hs : SInv m s) :
-    StepPost tok (.reprocess m tok) s :=
-  ⟨hi, hs, rfl⟩
+private theorem StepPost.ofReprocess {tok : Token} {s : State} {m : Mode} (hi : HInv s) (hs : SInv m s)
+    (hm : m ≠ .text := by decide) : StepPost tok (.reprocess m tok) s :=
+  ⟨hi, hs, rfl, hm⟩
 
 /-! ### scope tests, answered in the state after the test -/
 
@@ -281,7 +281,7 @@ theorem sat_processCharsInTable (hb : BodySpec) {tok : Token} {s : State} (ht : 
     have hpre1 : preRoot s1.mode = false := by rw [hq.mode]; exact hpre
     exact ⟨ht1.h.withOrig _,
       ⟨fun _ => hs1.root hpre1, trivial, fun h => (by cases h), hs1.headIn, fun h => (by cases h),
-       fun _ => ⟨s1.mode, rfl, by rw [hq.mode]; exact hm⟩, fun h => absurd rfl h, hs1.tmpl, hs1.tmodes⟩, rfl⟩
+       fun _ => ⟨s1.mode, rfl, by rw [hq.mode]; exact hm⟩, fun h => absurd rfl h, hs1.tmpl, hs1.tmodes⟩, rfl, by decide⟩
   · refine sat_parseError.bind ?_
     intro _ s2 hq2
     have ht2 : TI s2 := ht1.of_qf hq2
@@ -331,7 +331,7 @@ theorem sat_setModeDone {tok : Token} {m : Mode} {s : State} (hi : HInv s) (hs :
 theorem sat_popNamedResetThen {α : Type} {name : Str} {k : Mode → M α} {s : State} {Q : α → State → Prop}
     {m0 : Mode} {pre post : List Id} {x : Id} (hi : HInv s) (hs : SInv m0 s) (hm0 : m0 ≠ .inTableText)
     (hr : Rooted s.dom s.openElems) (sp : TopSplit s.dom tableScope (namedP s.dom name) s.openElems pre x post)
-    (hname : name ≠ "html".toList) (hk : ∀ m s', HInv s' → SInv m s' → Sat (k m) s' Q) :
+    (hname : name ≠ "html".toList) (hk : ∀ m s', HInv s' → SInv m s' → m ≠ .text → Sat (k m) s' Q) :
     Sat (do let _ ← popUntilNamedS name; let m ← resetInsertionMode; k m) s Q := by
   have hne : pre ≠ [] := hr.pre_ne sp.eq (by
     rw [namedP_nm sp.px]; intro e; simp only [htmlName, EName.mk.injEq] at e; exact hname e.2)
@@ -345,6 +345,7 @@ theorem sat_popNamedResetThen {α : Type} {name : Str} {k : Mode → M α} {s : 
   have h2 : SInv .inBody s2 := h1.of_qf b1.hinv hq
   exact hk m s2 (b1.hinv.of_qf hq)
     (h2.chmode (by decide) (fun _ => h2.root rfl) ro.stack ro.head ro.notSpecial.1 ro.notSpecial.2.1)
+    ro.notSpecial.1
 
 theorem stepInTable_spec (hh : HeadSpec) (hb : BodySpec) : TableSpec := by
   intro tok s ht hm
@@ -416,8 +417,8 @@ theorem stepInTable_spec (hh : HeadSpec) (hb : BodySpec) : TableSpec := by
         obtain ⟨pre, x, post, sp⟩ := hsp hb2
         refine sat_popNamedResetThen ht2.h ht2.s (by rw [hq2.mode, hq1.mode]; exact hntt)
           (ht2.rooted (by rw [hq2.mode, hq1.mode]; exact hpre)) sp (by decide) ?_
-        intro m s' h1 h2
-        exact sat_pure (StepPost.ofReprocess h1 h2)
+        intro m s' h1 h2 h3
+        exact sat_pure (StepPost.ofReprocess h1 h2 h3)
       · exact sat_pure (StepPost.of_qf ht (hq1.trans hq2) rfl trivial)
     rw [if_neg c6]
     by_cases c7 : tag.isEnd ["table"] = true
@@ -430,7 +431,7 @@ theorem stepInTable_spec (hh : HeadSpec) (hb : BodySpec) : TableSpec := by
         obtain ⟨pre, x, post, sp⟩ := hsp hb2
         refine sat_popNamedResetThen ht2.h ht2.s (by rw [hq2.mode]; exact hntt)
           (ht2.rooted (by rw [hq2.mode]; exact hpre)) sp (by decide) ?_
-        intro m s' h1 h2
+        intro m s' h1 h2 _
         exact sat_setModeDone h1 h2
       · refine sat_unexpected.bind ?_
         rintro _ s3 ⟨-, hq3⟩
@@ -556,7 +557,7 @@ theorem sat_takeOrigTable {tok : Token} {s : State} {om : Mode} (hi : HInv s) (h
   rw [ho]
   dsimp only
   refine sat_set_bind ?_
-  refine sat_pure ⟨hi.withOrig none, ?_, rfl⟩
+  refine sat_pure ⟨hi.withOrig none, ?_, rfl, hnt⟩
   have h1 : SInv om s := h.chmode (by decide) (fun _ => h.root rfl) (hstk _ _)
     (fun hh => by rw [hnd] at hh; cases hh) hnt hntt
   exact h1.withOrig hnt hntt none
